@@ -10,12 +10,25 @@ CLAIMED = {
  "C11": dict(engine="e1-stepspace", design="4/C11",
    text="Same exhaustive step spaces as C01 with every (R,W) pair: changed cells within floor(W/2), non-sequential successors within floor(R/2), R=W=M equals the limit-free reference step, and a differential non-interference run in which every cell beyond both distances is replaced.",
    technique="explicit-state enumeration of step states + distance invariants + differential non-interference"),
+ "C02": dict(engine="e2-battles", design="4/C02",
+   text="Exhaustive enumeration of battles (1..4 warriors over a 16-instruction scheduling alphabet, every offset, entry point, process limit 1..3, cycle limits) driven cycle by cycle in lock step with an independent reference scheduler (executed tasks, queues, alive flags, counters, whole core after every cycle) and Run() on a fresh simulator compared with the stepped final state.",
+   technique="explicit-state enumeration of battles + lock-step reference scheduler trace comparison"),
+ "C12": dict(engine="e2-battles", design="4/C12",
+   text="Every enumerated battle (1..3 warriors, M in {5,8}, limits (M,M) and (3,4)) is re-run at every shift in [0,M) and with offsets spelled off+jM (j in 0..2); results, cycle count, rotated core and rotated queues must equal the unshifted run (differential oracle, no reference model).",
+   technique="exhaustive enumeration of battles x all placements, differential (metamorphic) comparison"),
+ "C04": dict(engine="e1-stepspace + e2-battles + config product", design="4/C04",
+   text="Invariants (fields and PCs < M, queue <= P, cycles <= limit, living == #alive, alive <=> queue non-empty, no panic) on every successor of the step spaces, after every cycle of every battle of all 7616 one-instruction warriors against 12 hostile programs, and on a boundary product of all seven configuration fields (refused with an error, or supports a hostile battle).",
+   technique="explicit-state enumeration with invariant checking in every reached state"),
+ "C15": dict(engine="e1-stepspace + e2-battles", design="4/C15",
+   text="A recording listener and the bundled StateRecorder are attached to every step of the step spaces and every cycle of the enumerated battles (including Reset in mid-battle): addresses < M, valid warrior index, task pop announces the queue front before the task runs, changed cells (from core snapshots taken at every pop) are a subset of reported mutations which are a subset of the cells the reference step may touch, terminate reports iff deaths, recorder state equals the last-operation fold of the reference event stream.",
+   technique="explicit-state enumeration with per-task report-stream oracle against the reference event stream"),
 }
 
 PENDING = {
 }
 
 ENGINES = [
+ {"name": "e2-battles", "path": "/verif/mc/engines/e2", "serves_properties": ["C02", "C12", "C04", "C15"], "kind_free_text": "explicit-state enumeration of whole battles against the reference scheduler; placement differential; configuration boundary product"},
  {"name": "e1-stepspace", "path": "/verif/mc/engines/e1", "serves_properties": ["C01", "C11", "C04", "C15"], "kind_free_text": "explicit-state enumeration of single-step states against the reference step"},
 ]
 
